@@ -20,7 +20,7 @@ const W0: [f32; 6] = [0.5, -1.25, 2.0, -0.03125, 0.0, 7.0];
 pub fn meta(ctx: &Ctx) -> Meta {
     let d = depth(ctx);
     Meta {
-        rule: format!("optimizer kinds x hyper-parameter lattice (SGD 2, SGDM 8, Adam 4, AdamW 2, RMSprop 16 settings around the defaults, plus 13 away from them: beta1 = 1/2 (first moment cancelling exactly), momentum 0 (SGDM's documented default), epsilon 1e-12, epsilon 0.125, betas 0.5/0.9, alpha 0.9, learning rates 0.05..1, momentum 0.99 with dampening 0.5) x ALL gradient sequences over G={{0,+-1e-20,+-1e-3,+-0.5,+-1,+-1e4}} of length {} x ALL non-decreasing step-number sequences over {{1,2,3,5}} x ranks {{vector, matrix, 3-D kernel}} through create->validate->update; 18 element histories per tensor; run-length histories (constant / alternating / one-hot then zeros) to 2048 steps; 24-step varying-gradient histories on wide tensors (vector 70, matrix 2x35, kernel 2x5x7: row lengths that are not multiples of 4 or 8); re-validation: an optimizer validated two and three times against one validated once, bit-exact; slot-isolation: all 2^d interleavings of a slot-B update stream into slot A's for 4 slot pairs. Oracles: documented recurrences (f64 + f32 transcription, derived tolerance), rank differential bit-exact, isolation differential bit-exact, finiteness. A state is a node of the history tree (gradient prefix x step-number prefix); non-trivial = node whose history has a non-zero gradient", d),
+        rule: format!("optimizer kinds x hyper-parameter lattice (SGD 2, SGDM 8, Adam 4, AdamW 2, RMSprop 16 settings around the defaults, plus 13 away from them: beta1 = 1/2 (first moment cancelling exactly), momentum 0 (SGDM's documented default), epsilon 1e-12, epsilon 0.125, betas 0.5/0.9, alpha 0.9, learning rates 0.05..1, momentum 0.99 with dampening 0.5) x ALL gradient sequences over G={{0,+-1e-20,+-1e-3,+-0.5,+-1,+-1e4}} of length {} x ALL non-decreasing step-number sequences over {{1,2,3,5}} x ranks {{vector, matrix, 3-D kernel}} through create->validate->update; 18 element histories per tensor; run-length histories (constant / alternating / one-hot then zeros) to 2048 steps; 24-step varying-gradient histories on wide tensors (vector 70, matrix 2x35, kernel 2x5x7: row lengths that are not multiples of 4 or 8) and 8-step ones on tensors of 4480 elements (vector, matrix 64x70, kernel 4x16x70); re-validation: an optimizer validated two and three times against one validated once, bit-exact; slot-isolation: all 2^d interleavings of a slot-B update stream into slot A's for 4 slot pairs. Oracles: documented recurrences (f64 + f32 transcription, derived tolerance), rank differential bit-exact, isolation differential bit-exact, finiteness. A state is a node of the history tree (gradient prefix x step-number prefix); non-trivial = node whose history has a non-zero gradient", d),
         bound: format!("history depth {} complete for the alphabet; long histories 2048 steps for 33 patterns per setting", d),
         exhaustive: true,
         assumptions: vec![
@@ -356,9 +356,16 @@ fn long_histories(spec: &OptSpec, n_steps: usize, rep: &mut Report) {
 /// kernel 2x5x7; 24 steps with a different pseudo-random gradient from G per element and step; documented recurrence
 /// per element and rank differential (the same element histories in all three ranks).
 fn wide_histories(spec: &OptSpec, rep: &mut Report) {
-    const N: usize = 70;
-    let shapes: [Vec<usize>; 3] = [vec![N], vec![2, 35], vec![2, 5, 7]];
-    let case = Kv::new().put("kind", "wide").put("opt", spec.name());
+    wide_histories_of(spec, rep, 70, [vec![70], vec![2, 35], vec![2, 5, 7]], 24, "wide");
+    // ... and tensors of several thousand elements (a 64x70 matrix, a 4x16x70 kernel, the vector of 4480): sizes at
+    // which an implementation might switch to a row-wise, blocked or parallel update
+    wide_histories_of(spec, rep, 4480, [vec![4480], vec![64, 70], vec![4, 16, 70]], 8, "huge");
+}
+
+fn wide_histories_of(spec: &OptSpec, rep: &mut Report, n_elems: usize, shapes: [Vec<usize>; 3], steps: usize, kind: &str) {
+    #[allow(non_snake_case)]
+    let N: usize = n_elems;
+    let case = Kv::new().put("kind", kind).put("opt", spec.name());
     let slot_state = |sh: &Vec<usize>| -> Optimizer {
         let z = || mk(sh, &vec![0.0; N]);
         let mut o = spec.lib();
@@ -371,7 +378,7 @@ fn wide_histories(spec: &OptSpec, rep: &mut Report) {
         .map(|e| RefLane { w64: W0[e % 6] as f64, s64: St::fresh(), w32: W0[e % 6], s32: St::fresh(), drift: 0.0, ill: false, dead: false, budget: 0.0 })
         .collect();
     let mut r = crate::util::Rng::new(0xC03, crate::util::fnv(&spec.name()));
-    for t in 0..24usize {
+    for t in 0..steps {
         let stepnr = [1, 1, 2, 2, 3, 3, 3, 4, 5, 5, 6, 7, 8, 9, 10, 11, 12, 13, 14, 15, 16, 17, 18, 19][t];
         let g: Vec<f32> = (0..N).map(|_| G[r.below(G.len())]).collect();
         for k in 0..3 {
@@ -407,7 +414,7 @@ fn wide_histories(spec: &OptSpec, rep: &mut Report) {
             }
         }
     }
-    rep.states += (24 * N) as u64;
+    rep.states += (steps * N) as u64;
 }
 
 /// slot isolation: stream A on slot a interleaved with stream B on slot b, all 2^d placements
@@ -564,7 +571,7 @@ pub fn replay(_ctx: &Ctx, case: &Kv) -> Report {
             run_batch(&spec, &seqs, &ss, &mut rep, case);
         }
         "long" => long_histories(&spec, case.usize("steps"), &mut rep),
-        "wide" => wide_histories(&spec, &mut rep),
+        "wide" | "huge" => wide_histories(&spec, &mut rep),
         "revalidate" => revalidation(&spec, case.usize("depth"), &mut rep),
         _ => isolation(&spec, case.usize("depth"), &mut rep),
     }
